@@ -116,6 +116,9 @@ func (pq *pqList) Expire(now time.Time) []interface{} {
 			return out
 		}
 		expired := heap.Pop(&pq.pq).(*bucket)
+		// forget the bucket: an item inserted later for the same second
+		// must go into a fresh bucket that is on the heap.
+		delete(pq.buckets, expired.deadline)
 		for _, v := range expired.data {
 			out = append(out, v.value)
 		}
